@@ -1054,3 +1054,304 @@ Proof. eexists _, _. split; vm_compute; reflexivity. Qed.
 Example ex_no_leak :
   regs [HAdd ["a"; "b"] 1%nat; HAdd ["a"] 2%nat; HRem ["a"; "b"] 1%nat; HRem ["a"] 2%nat] = [].
 Proof. vm_compute. reflexivity. Qed.
+
+(** * Lock discipline: the concurrent statements (LTS of MatchModel.v) *)
+From Gnmi Require Import Base.Lts.
+
+Lemma nth_error_set_nth_eq {A} n (x y : A) l :
+  nth_error l n = Some y -> nth_error (set_nth n x l) n = Some x.
+Proof.
+  revert n; induction l as [|a l IH]; intros [|n]; cbn; try discriminate; auto.
+Qed.
+
+Lemma nth_error_set_nth_neq {A} n m (x : A) l :
+  n <> m -> nth_error (set_nth n x l) m = nth_error l m.
+Proof.
+  revert n m; induction l as [|a l IH]; intros [|n] [|m] H; cbn; try reflexivity; try congruence.
+  apply IH. congruence.
+Qed.
+
+Definition is_hold (t : thread) : bool :=
+  match t with TUpd _ _ (UHold _) => true | _ => false end.
+
+Definition count_hold (thr : list thread) : nat := List.length (filter is_hold thr).
+
+Lemma count_hold_set_nth n x y thr :
+  nth_error thr n = Some y ->
+  (count_hold (set_nth n x thr) + (if is_hold y then 1 else 0) =
+   count_hold thr + (if is_hold x then 1 else 0))%nat.
+Proof.
+  unfold count_hold. revert n; induction thr as [|a thr IH]; intros [|n]; cbn; try discriminate.
+  - intros E; inversion E; subst. destruct (is_hold x), (is_hold y); cbn; lia.
+  - intros E. specialize (IH _ E). destruct (is_hold a); cbn; lia.
+Qed.
+
+Lemma count_hold_zero thr n t : count_hold thr = 0%nat -> nth_error thr n = Some t -> is_hold t = false.
+Proof.
+  unfold count_hold. revert n; induction thr as [|a thr IH]; intros [|n]; cbn; try discriminate.
+  - intros H E; inversion E; subst. destruct (is_hold t); [discriminate|reflexivity].
+  - intros H E. destruct (is_hold a); [discriminate|]. eauto.
+Qed.
+
+Lemma deliver_incl vs u c : In c (fst (deliver vs u)) -> In c vs.
+Proof.
+  destruct u as [s|].
+  - destruct (deliver_some vs s) as (_ & _ & _ & Hf & _). intros H. now apply Hf in H.
+  - now rewrite deliver_none.
+Qed.
+
+(** the invariant of the code as it is *)
+Definition cinv (s : cstate) : Prop :=
+  wf (cs_trie s) /\
+  cs_readers s = count_hold (cs_thr s) /\
+  (forall tid p upd l, nth_error (cs_thr s) tid = Some (TUpd p upd (UHold l)) ->
+                       incl l (visit (cs_trie s) p)).
+
+Lemma cinv_init t0 thr : wf t0 -> forallb thread_idle thr = true -> cinv (cinit t0 thr).
+Proof.
+  intros Hwf Hidle. rewrite forallb_forall in Hidle.
+  assert (Hno : forall n t, nth_error thr n = Some t -> is_hold t = false).
+  { intros n t E. apply nth_error_In in E. apply Hidle in E. destruct t as [? ? []| |]; cbn in *; congruence. }
+  split; [exact Hwf|]. split.
+  - cbn. unfold count_hold. clear Hidle. induction thr as [|a thr IH]; [reflexivity|]. cbn.
+    rewrite (Hno 0%nat a eq_refl). apply IH. intros n t E. apply (Hno (S n) t E).
+  - intros tid p upd l E. apply Hno in E. discriminate.
+Qed.
+
+Ltac csplit_inv Hs := inversion Hs; subst; clear Hs.
+
+Lemma cinv_step s tid s' : cinv s -> cstep true s tid = Some s' -> cinv s'.
+Proof.
+  intros (Hwf & Hrd & Hpend) Hs. unfold cstep in Hs.
+  destruct (nth_error (cs_thr s) tid) as [th|] eqn:Hth; [|discriminate].
+  assert (Hother : forall x tid' p upd l,
+             (forall p' u' l', x <> TUpd p' u' (UHold l')) \/
+             (exists p' u' l', x = TUpd p' u' (UHold l') /\ incl l' (visit (cs_trie s) p')) ->
+             nth_error (set_nth tid x (cs_thr s)) tid' = Some (TUpd p upd (UHold l)) ->
+             incl l (visit (cs_trie s) p)).
+  { intros x tid' p upd l Hx E. destruct (Nat.eq_dec tid tid') as [<-|Hne].
+    - rewrite (nth_error_set_nth_eq _ _ _ _ Hth) in E. inversion E; subst.
+      destruct Hx as [Hx|(p' & u' & l' & Ex & Hi)]; [exfalso; eapply Hx; eauto|].
+      inversion Ex; subst. exact Hi.
+    - rewrite nth_error_set_nth_neq in E by assumption. eapply Hpend; eauto. }
+  destruct th as [p upd [|[|c l]|]|q c [| |]|q c [| |]].
+  - (* RLock *)
+    destruct (cs_writer s); [discriminate|]. csplit_inv Hs. split; [exact Hwf|]. cbn [cs_trie cs_readers cs_thr cs_writer cs_trace]. split.
+    + pose proof (count_hold_set_nth tid (TUpd p upd (UHold (fst (deliver (visit (cs_trie s) p) upd))))
+                                      _ _ Hth) as H. cbn [is_hold] in H. lia.
+    + intros tid' p' upd' l' E. eapply Hother; [|exact E]. right. do 3 eexists. split; [reflexivity|].
+      intros c Hc. eapply deliver_incl; eauto.
+  - (* RUnlock *)
+    csplit_inv Hs. split; [exact Hwf|]. cbn [cs_trie cs_readers cs_thr cs_writer cs_trace]. split.
+    + pose proof (count_hold_set_nth tid (TUpd p upd UDone) _ _ Hth) as H. cbn [is_hold] in H. lia.
+    + intros tid' p' upd' l' E. eapply Hother; [|exact E]. left. congruence.
+  - (* callback *)
+    csplit_inv Hs. split; [exact Hwf|]. cbn [cs_trie cs_readers cs_thr cs_writer cs_trace]. split.
+    + pose proof (count_hold_set_nth tid (TUpd p upd (UHold l)) _ _ Hth) as H. cbn [is_hold] in H. lia.
+    + intros tid' p' upd' l' E. eapply Hother; [|exact E]. right. do 3 eexists. split; [reflexivity|].
+      intros x Hx. apply (Hpend _ _ _ _ Hth). now right.
+  - discriminate.
+  - (* remove: Lock *)
+    destruct (cs_writer s || negb (cs_readers s =? 0)%nat) eqn:E; [discriminate|].
+    apply orb_false_iff in E as [_ E]. apply negb_false_iff, Nat.eqb_eq in E.
+    csplit_inv Hs. split; [now apply wf_remove_root|]. cbn [cs_trie cs_readers cs_thr cs_writer cs_trace]. split.
+    + pose proof (count_hold_set_nth tid (TRem q c WHold) _ _ Hth) as H. cbn [is_hold] in H. lia.
+    + intros tid' p' upd' l' E'. exfalso. destruct (Nat.eq_dec tid tid') as [<-|Hne].
+      * rewrite (nth_error_set_nth_eq _ _ _ _ Hth) in E'. discriminate.
+      * rewrite nth_error_set_nth_neq in E' by assumption.
+        rewrite E in Hrd. symmetry in Hrd. apply (count_hold_zero _ _ _ Hrd) in E'. discriminate.
+  - csplit_inv Hs. split; [exact Hwf|]. cbn [cs_trie cs_readers cs_thr cs_writer cs_trace]. split.
+    + pose proof (count_hold_set_nth tid (TRem q c WDone) _ _ Hth) as H. cbn [is_hold] in H. lia.
+    + intros tid' p' upd' l' E. eapply Hother; [|exact E]. left. congruence.
+  - discriminate.
+  - (* add: Lock *)
+    destruct (cs_writer s || negb (cs_readers s =? 0)%nat) eqn:E; [discriminate|].
+    apply orb_false_iff in E as [_ E]. apply negb_false_iff, Nat.eqb_eq in E.
+    csplit_inv Hs. split; [now apply wf_add_query|]. cbn [cs_trie cs_readers cs_thr cs_writer cs_trace]. split.
+    + pose proof (count_hold_set_nth tid (TAdd q c WHold) _ _ Hth) as H. cbn [is_hold] in H. lia.
+    + intros tid' p' upd' l' E'. exfalso. destruct (Nat.eq_dec tid tid') as [<-|Hne].
+      * rewrite (nth_error_set_nth_eq _ _ _ _ Hth) in E'. discriminate.
+      * rewrite nth_error_set_nth_neq in E' by assumption.
+        rewrite E in Hrd. symmetry in Hrd. apply (count_hold_zero _ _ _ Hrd) in E'. discriminate.
+  - csplit_inv Hs. split; [exact Hwf|]. cbn [cs_trie cs_readers cs_thr cs_writer cs_trace]. split.
+    + pose proof (count_hold_set_nth tid (TAdd q c WDone) _ _ Hth) as H. cbn [is_hold] in H. lia.
+    + intros tid' p' upd' l' E. eapply Hother; [|exact E]. left. congruence.
+  - discriminate.
+Qed.
+
+Lemma cinv_reachable t0 thr s :
+  wf t0 -> forallb thread_idle thr = true ->
+  reachable_from (cstep true) (cinit t0 thr) s -> cinv s.
+Proof.
+  intros Hwf Hidle. apply (invariant (cstep true) cinv); [now apply cinv_init|].
+  intros. eapply cinv_step; eauto.
+Qed.
+
+(** Every callback is made to a client that is registered, in the trie AS IT
+    IS AT THAT MOMENT, on a path compatible with the update -- never on the
+    strength of a stale walk. *)
+Lemma concurrent_delivery_current t0 thr s tid p upd c l :
+  wf t0 -> forallb thread_idle thr = true ->
+  reachable_from (cstep true) (cinit t0 thr) s ->
+  nth_error (cs_thr s) tid = Some (TUpd p upd (UHold (c :: l))) ->
+  exists q, In c (clients_at (cs_trie s) q) /\ compat q p = true.
+Proof.
+  intros Hwf Hidle Hr Hth. destruct (cinv_reachable _ _ _ Hwf Hidle Hr) as (Hwf' & _ & Hpend).
+  apply visit_spec; [assumption|]. apply (Hpend _ _ _ _ Hth). now left.
+Qed.
+
+(** While an Update call is handing a notification out (it holds the read
+    lock), no removal closure and no AddQuery can enter its critical section,
+    hence none can return. *)
+Lemma concurrent_remove_blocked t0 thr s u p upd l tid :
+  wf t0 -> forallb thread_idle thr = true ->
+  reachable_from (cstep true) (cinit t0 thr) s ->
+  nth_error (cs_thr s) u = Some (TUpd p upd (UHold l)) ->
+  (forall q c, nth_error (cs_thr s) tid = Some (TRem q c WIdle) -> cstep true s tid = None) /\
+  (forall q c, nth_error (cs_thr s) tid = Some (TAdd q c WIdle) -> cstep true s tid = None).
+Proof.
+  intros Hwf Hidle Hr Hu. destruct (cinv_reachable _ _ _ Hwf Hidle Hr) as (_ & Hrd & _).
+  assert (Hpos : cs_readers s <> 0%nat).
+  { intros E. rewrite E in Hrd. symmetry in Hrd. apply (count_hold_zero _ _ _ Hrd) in Hu. discriminate. }
+  apply Nat.eqb_neq in Hpos.
+  split; intros q c E; unfold cstep; rewrite E, Hpos; cbn; now rewrite orb_true_r.
+Qed.
+
+(** the program of a thread (its call and arguments) never changes *)
+Definition prog (t : thread) : thread :=
+  match t with
+  | TUpd p upd _ => TUpd p upd UIdle
+  | TRem q c _ => TRem q c WIdle
+  | TAdd q c _ => TAdd q c WIdle
+  end.
+
+Lemma map_set_nth {A B} (f : A -> B) n x y l :
+  nth_error l n = Some y -> f x = f y -> map f (set_nth n x l) = map f l.
+Proof.
+  revert n; induction l as [|a l IH]; intros [|n]; cbn; try discriminate.
+  - intros E H; inversion E; subst. now rewrite H.
+  - intros E H. f_equal. eauto.
+Qed.
+
+Lemma cstep_prog lk s tid s' : cstep lk s tid = Some s' -> map prog (cs_thr s') = map prog (cs_thr s).
+Proof.
+  unfold cstep. destruct (nth_error (cs_thr s) tid) as [th|] eqn:Hth; [|discriminate].
+  destruct th as [p upd [|[|c l]|]|q c [| |]|q c [| |]]; try discriminate; intros H;
+    repeat match type of H with
+           | (if ?b then _ else _) = _ => destruct b; try discriminate
+           end;
+    inversion H; subst; cbn [cs_thr]; eapply map_set_nth; eauto.
+Qed.
+
+(** after the removal closure of (q, c) has taken effect, and as long as no
+    AddQuery for the same pair exists, c is not registered at q *)
+Definition removed_inv (q : path) (c : cid) (s : cstate) : Prop :=
+  forall tid, nth_error (cs_thr s) tid = Some (TRem q c WHold) \/
+              nth_error (cs_thr s) tid = Some (TRem q c WDone) ->
+              ~ In c (clients_at (cs_trie s) q).
+
+Lemma removed_inv_step q c s tid s' :
+  cinv s ->
+  (forall st, ~ In (TAdd q c st) (cs_thr s)) ->
+  removed_inv q c s -> cstep true s tid = Some s' -> removed_inv q c s'.
+Proof.
+  intros (Hwf & _ & _) Hnoadd Hinv Hs. unfold cstep in Hs.
+  destruct (nth_error (cs_thr s) tid) as [th|] eqn:Hth; [|discriminate].
+  assert (Hkeep : forall x, cs_trie s' = cs_trie s -> cs_thr s' = set_nth tid x (cs_thr s) ->
+                 (x = TRem q c WHold \/ x = TRem q c WDone ->
+                  th = TRem q c WHold \/ th = TRem q c WDone) -> removed_inv q c s').
+  { intros x Et Eth Hx tid' Htid'. rewrite Et, Eth in *.
+    destruct (Nat.eq_dec tid tid') as [<-|Hne].
+    - rewrite (nth_error_set_nth_eq _ _ _ _ Hth) in Htid'.
+      apply (Hinv tid). rewrite Hth.
+      destruct Htid' as [E|E]; inversion E; subst; destruct Hx as [->| ->]; auto.
+    - rewrite nth_error_set_nth_neq in Htid' by assumption. eapply Hinv; eauto. }
+  destruct th as [p upd [|[|c0 l]|]|q0 c0 [| |]|q0 c0 [| |]]; try discriminate.
+  - destruct (cs_writer s); [discriminate|]. csplit_inv Hs.
+    eapply Hkeep; cbn; eauto. intros [E|E]; discriminate.
+  - csplit_inv Hs. eapply Hkeep; cbn; eauto. intros [E|E]; discriminate.
+  - csplit_inv Hs. eapply Hkeep; cbn; eauto. intros [E|E]; discriminate.
+  - destruct (cs_writer s || negb (cs_readers s =? 0)%nat); [discriminate|]. csplit_inv Hs.
+    intros tid' Htid'. cbn in *. rewrite clients_at_remove_root by assumption.
+    intros [Hin Hne]. destruct (Nat.eq_dec tid tid') as [<-|Hneq].
+    + rewrite (nth_error_set_nth_eq _ _ _ _ Hth) in Htid'.
+      destruct Htid' as [E|E]; inversion E; subst. apply Hne. auto.
+    + rewrite nth_error_set_nth_neq in Htid' by assumption. eapply Hinv; eauto.
+  - csplit_inv Hs. eapply Hkeep; cbn; eauto. intros [E|E]; inversion E; subst; auto.
+  - destruct (cs_writer s || negb (cs_readers s =? 0)%nat); [discriminate|]. csplit_inv Hs.
+    intros tid' Htid'. cbn in *. rewrite clients_at_add_query.
+    intros [[Eq Ec]|Hin].
+    + subst. apply (Hnoadd WIdle). eapply nth_error_In; eauto.
+    + destruct (Nat.eq_dec tid tid') as [<-|Hneq].
+      * rewrite (nth_error_set_nth_eq _ _ _ _ Hth) in Htid'. destruct Htid' as [E|E]; discriminate.
+      * rewrite nth_error_set_nth_neq in Htid' by assumption. eapply Hinv; eauto.
+  - csplit_inv Hs. eapply Hkeep; cbn; eauto. intros [E|E]; discriminate.
+Qed.
+
+Lemma no_add_preserved q c lk s tid s' :
+  (forall st, ~ In (TAdd q c st) (cs_thr s)) -> cstep lk s tid = Some s' ->
+  (forall st, ~ In (TAdd q c st) (cs_thr s')).
+Proof.
+  intros Hno Hs st Hin. apply cstep_prog in Hs.
+  apply (in_map prog) in Hin. rewrite Hs in Hin. apply in_map_iff in Hin as (t & Et & Ht).
+  destruct t as [| |q' c' st']; cbn in Et; try discriminate. inversion Et; subst. eapply Hno; eauto.
+Qed.
+
+(** For every interleaving of any number of Update / UpdateOnce calls,
+    removal closures and AddQuery calls: once the removal closure of (q, c)
+    has RETURNED (and nobody registers that pair again), every later callback
+    to c is justified by ANOTHER path of c that is registered at that moment
+    and compatible with the update. *)
+Lemma no_delivery_after_remove_concurrent t0 thr s r q c u p upd l :
+  wf t0 -> forallb thread_idle thr = true ->
+  (forall st, ~ In (TAdd q c st) thr) ->
+  reachable_from (cstep true) (cinit t0 thr) s ->
+  nth_error (cs_thr s) r = Some (TRem q c WDone) ->
+  nth_error (cs_thr s) u = Some (TUpd p upd (UHold (c :: l))) ->
+  exists q', q' <> q /\ In c (clients_at (cs_trie s) q') /\ compat q' p = true.
+Proof.
+  intros Hwf Hidle Hnoadd Hr Hrem Hu.
+  assert (Hboth : cinv s /\ (forall st, ~ In (TAdd q c st) (cs_thr s)) /\ removed_inv q c s).
+  { clear Hrem Hu.
+    apply (invariant (cstep true)
+             (fun s => cinv s /\ (forall st, ~ In (TAdd q c st) (cs_thr s)) /\ removed_inv q c s)
+             (cinit t0 thr)); [| |exact Hr].
+    - split; [now apply cinv_init|]. split; [exact Hnoadd|].
+      intros tid [E|E]; cbn in E; apply nth_error_In in E; rewrite forallb_forall in Hidle;
+        apply Hidle in E; discriminate.
+    - intros s1 l1 s2 (Hc & Hn & Hri) Hs. split; [eapply cinv_step; eauto|].
+      split; [eapply no_add_preserved; eauto|eapply removed_inv_step; eauto]. }
+  destruct Hboth as (Hc & _ & Hri).
+  destruct (concurrent_delivery_current _ _ _ _ _ _ _ _ Hwf Hidle Hr Hu) as (q' & Hq' & Hcq).
+  exists q'. split; [|auto]. intros ->. apply (Hri r); auto.
+Qed.
+
+(** The variant that calls the clients after RUnlock violates it: the removal
+    closure returns (event 0) and the client is called afterwards (event 1),
+    although it is registered nowhere any more.  (corpus: family conc) *)
+Lemma concurrent_unlocked_refuted :
+  exists t0 thr sch s,
+    wf t0 /\ forallb thread_idle thr = true /\
+    run (cstep false) (cinit t0 thr) sch = Some s /\
+    cs_trace s = [EReturned 1%nat; EDeliver 0%nat 2%nat] /\
+    (forall q, ~ In 2%nat (clients_at (cs_trie s) q)).
+Proof.
+  exists (add_query ["dev"; "a"] 2%nat empty_branch),
+         [TUpd ["dev"; "a"; "b"] None UIdle; TRem ["dev"; "a"] 2%nat WIdle],
+         [0%nat; 1%nat; 1%nat; 0%nat].
+  eexists. split; [apply wf_add_query, wf_empty|]. split; [reflexivity|].
+  split; [vm_compute; reflexivity|]. split; [reflexivity|].
+  intros q. cbn. destruct q; cbn; tauto.
+Qed.
+
+(** the same schedule is not a run of the code as it is: the removal closure
+    is not enabled while the read lock is held *)
+Example ex_concurrent_locked_blocks :
+  run (cstep true) (cinit (add_query ["dev"; "a"] 2%nat empty_branch)
+                          [TUpd ["dev"; "a"; "b"] None UIdle; TRem ["dev"; "a"] 2%nat WIdle])
+      [0%nat; 1%nat] = None
+  /\ exists s, run (cstep true) (cinit (add_query ["dev"; "a"] 2%nat empty_branch)
+                          [TUpd ["dev"; "a"; "b"] None UIdle; TRem ["dev"; "a"] 2%nat WIdle])
+      [0%nat; 0%nat; 0%nat; 1%nat; 1%nat] = Some s
+     /\ cs_trace s = [EDeliver 0%nat 2%nat; EReturned 0%nat; EReturned 1%nat].
+Proof. split; [vm_compute; reflexivity|]. eexists. split; vm_compute; reflexivity. Qed.
